@@ -98,6 +98,15 @@ Theorem C17_longdiv_mixed_unsigned : forall k a d,
               bval q = bval a / bval d /\ bval r = bval a mod bval d.
 Proof. exact long_division_unsigned. Qed.
 
+(* the extra hypothesis of the unsigned mixed-width theorem is necessary: for an 8-bit dividend
+   and a 4-bit divisor, 85 / 11 evaluates to (0, 5) instead of (7, 8) — the model mirrors the
+   code here (tied by the div_mixed_widths cases), so this is a statement about /repo, outside
+   the one-width statement of C17 *)
+Theorem C17_longdiv_mixed_unsigned_refuted :
+  exists a d q r, length a = 8%nat /\ length d = 4%nat /\ bval d <> 0 /\
+    long_division false a d = Ok (q, r) /\ bval q <> bval a / bval d.
+Proof. exact longdiv_mixed_unsigned_counterexample. Qed.
+
 (* ------------------------------------------------------------------ non-vacuity *)
 (* the second conjunct is the witness of the repaired Mux defect (34574f8) *)
 Example C17_example_mux :
@@ -141,3 +150,4 @@ Print Assumptions C17_longdiv_spec_unsigned.
 Print Assumptions C17_longdiv_spec_signed.
 Print Assumptions C17_longdiv_mixed_signed.
 Print Assumptions C17_longdiv_mixed_unsigned.
+Print Assumptions C17_longdiv_mixed_unsigned_refuted.
